@@ -488,7 +488,20 @@ theorem uniqL_refines (srt : Sorter) (hs : ValidSorter srt) (h h' : Seq → Nat)
 
 /-- non-vacuity of the loop-level hypotheses: the two executable sorts are sorts, and the chunks `Distribute`
 makes (`group (hashC h) input`), dealt to any number of workers, are `ChunksOK` -/
-example : ValidSorter sortStable ∧ ValidSorter sortAnti := ⟨sortStable_valid, sortAnti_valid⟩
+example : ValidSorter sortStable ∧ ValidSorter sortAnti ∧ ValidSorter sortMerge ∧ ValidSorter sortMergeAnti :=
+  ⟨sortStable_valid, sortAnti_valid, sortMerge_valid, sortMergeAnti_valid⟩
+
+/-- test: the loop-level pipeline on a concrete input with the anti-stable sort and two workers: the same three
+classes as `uniq` gives on `exIn` below (in another order, with another member order inside the classes) -/
+example : (uniqL sortAnti { cats := ["s"], stats := ["s", "t"], na := "NA", noSingleton := false }
+      (dealTo 2 (group (hashC (fun s => s.length % 2))
+        [ { id := "a", seq := [97, 99], cnt := none, attrs := [("s", "x"), ("t", "u")], merged := [] },
+          { id := "b", seq := [97, 99], cnt := some 3, attrs := [("t", "u"), ("s", "x")],
+            merged := [("t", [("u", 2), ("w", 1)])] },
+          { id := "c", seq := [97, 99], cnt := some 2, attrs := [], merged := [] },
+          { id := "d", seq := [103], cnt := some 1, attrs := [("s", "NA")], merged := [] } ]))).map
+      (fun r => (r.count, r.merged.lookup "t")) =
+    [(2, some [("NA", 2)]), (4, some [("u", 3), ("w", 1)]), (1, some [("NA", 1)])] := by decide
 
 example (h : Seq → Nat) (input : List Rec) : ChunksOK h input [group (hashC h) input] :=
   chunksOK_of_perm h input _ (by simp)
